@@ -7,10 +7,13 @@ package c13
 // written to disk.
 
 import (
+	"bytes"
+	"crypto"
 	"crypto/ecdsa"
 	"crypto/elliptic"
 	crand "crypto/rand"
 	"crypto/rsa"
+	"crypto/sha256"
 	"crypto/x509"
 	"crypto/x509/pkix"
 	"encoding/asn1"
@@ -488,6 +491,24 @@ func (w *world) buildPKCS7() {
 		w.add(name, b)
 		return b
 	}
+	sm2Sign := func(attrs []byte) ([]byte, error) { return w.sm2B.Sign(w.rnd, attrs, sm2.DefaultSM2SignerOpts) }
+	// retime fixes the signing time and checks that the library still verifies the artefact
+	retime := func(b []byte, err error, sign func([]byte) ([]byte, error), content []byte) ([]byte, error) {
+		if err != nil {
+			return nil, err
+		}
+		if b, err = fixSigningTime(b, sign); err != nil {
+			return nil, err
+		}
+		p, err := pkcs7.Parse(b)
+		if err != nil {
+			return nil, err
+		}
+		if content != nil {
+			p.Content = content
+		}
+		return b, p.Verify()
+	}
 	signed := fin("p7.signed.sm2", func() ([]byte, error) {
 		sd, err := pkcs7.NewSMSignedData(w.msg)
 		must("p7 signed", err)
@@ -495,14 +516,16 @@ func (w *world) buildPKCS7() {
 			ExtraSignedAttributes:   []pkcs7.Attribute{{Type: asn1.ObjectIdentifier{1, 2, 3, 9}, Value: "extra"}},
 			ExtraUnsignedAttributes: []pkcs7.Attribute{{Type: asn1.ObjectIdentifier{1, 2, 3, 10}, Value: 7}},
 		}))
-		return sd.Finish()
+		b, err := sd.Finish()
+		return retime(b, err, sm2Sign, nil)
 	})
 	fin("p7.signed.sm2.detached", func() ([]byte, error) {
 		sd, err := pkcs7.NewSMSignedData(w.msg)
 		must("p7 signed", err)
 		must("p7 signer", sd.AddSigner(w.leaf, w.sm2B, pkcs7.SignerInfoConfig{}))
 		sd.Detach()
-		return sd.Finish()
+		b, err := sd.Finish()
+		return retime(b, err, sm2Sign, w.msg)
 	})
 	fin("p7.signed.sm2.noattr", func() ([]byte, error) {
 		sd, err := pkcs7.NewSMSignedData(w.msg)
@@ -521,7 +544,11 @@ func (w *world) buildPKCS7() {
 		must("p7 signed rsa", err)
 		sd.SetDigestAlgorithm(pkcs7.OIDDigestAlgorithmSHA256)
 		must("p7 signer", sd.AddSigner(w.rsaCert, w.rsa1, pkcs7.SignerInfoConfig{}))
-		return sd.Finish()
+		b, err := sd.Finish()
+		return retime(b, err, func(attrs []byte) ([]byte, error) {
+			h := sha256.Sum256(attrs)
+			return rsa.SignPKCS1v15(nil, w.rsa1, crypto.SHA256, h[:])
+		}, nil)
 	})
 	fin("p7.degenerate", func() ([]byte, error) { return pkcs7.DegenerateCertificate(w.leaf.Raw) })
 	// the same signed data in BER (indefinite lengths on the outer levels): work for the normaliser
@@ -560,6 +587,78 @@ func (w *world) buildPKCS7() {
 		must("saed recipient", s.AddRecipient(w.rsaCert))
 		return s.Finish()
 	})
+}
+
+// fixSigningTime makes a SignedData with authenticated attributes reproducible. pkcs7 stamps
+// time.Now() into the signingTime attribute and offers no way to choose it, so the artefact would differ from
+// process to process (and its signature, hence its length, with it): all shards must enumerate the same cases
+// and a replay must see the same bytes. The attribute is set to a fixed instant and the signature over the
+// attributes is recomputed with sign (the same primitive the library uses); the caller checks that the library
+// verifies the result.
+func fixSigningTime(der []byte, sign func(attrsSET []byte) ([]byte, error)) ([]byte, error) {
+	oidSigningTime := []byte{0x2a, 0x86, 0x48, 0x86, 0xf7, 0x0d, 0x01, 0x09, 0x05}
+	locate := func(t *derTree) (timeNode, attrs, sig *node) {
+		for i, n := range t.flat {
+			if n.tag[0] == 0x06 && bytes.Equal(n.body, oidSigningTime) && i+2 < len(t.flat) && t.flat[i+2].tag[0] == 0x17 {
+				timeNode = t.flat[i+2]
+			}
+		}
+		if timeNode == nil {
+			return
+		}
+		var parent *node
+		for _, n := range t.flat { // deepest [0] that contains the time node = the authenticated attributes
+			if n.tag[0] != 0xa0 {
+				continue
+			}
+			for _, d := range flatten(n.kids, nil) {
+				if d == timeNode {
+					attrs = n
+				}
+			}
+		}
+		for _, n := range t.flat {
+			for _, k := range n.kids {
+				if k == attrs {
+					parent = n
+				}
+			}
+		}
+		if parent == nil {
+			return
+		}
+		after := false
+		for _, k := range parent.kids {
+			if k == attrs {
+				after = true
+			} else if after && k.tag[0] == 0x04 && sig == nil {
+				sig = k
+			}
+		}
+		return
+	}
+	t := newDERTree(der)
+	if t == nil {
+		return nil, fmt.Errorf("not DER")
+	}
+	tn, _, _ := locate(t)
+	if tn == nil {
+		return nil, fmt.Errorf("no signingTime attribute")
+	}
+	der = emitReplace(t.roots, tn, tlv([]byte{0x17}, []byte("250615000000Z"), lenMinimal))
+	if t = newDERTree(der); t == nil {
+		return nil, fmt.Errorf("not DER after the time was replaced")
+	}
+	_, attrs, sig := locate(t)
+	if attrs == nil || sig == nil {
+		return nil, fmt.Errorf("signed attributes or signature not found")
+	}
+	var dummy bool
+	sv, err := sign(tlv([]byte{0x31}, content(attrs, nil, &dummy), lenMinimal))
+	if err != nil {
+		return nil, err
+	}
+	return emitReplace(t.roots, sig, tlv([]byte{0x04}, sv, lenMinimal)), nil
 }
 
 const escrowPrefix = "0000000000000001000000000000000100000000000000000000000000000000"
